@@ -217,3 +217,48 @@ ACCEPT["Vec of an enum with payload-free variants"] = (M(
     "    let v = Vec.of(Opt.No());\n    let _ = v.push(Opt.Yes(4));\n    let a = match v.get(1) { Yes(n) -> n, No -> 0 };\n"
     "    let b = match v.get(0) { Yes(n) -> n, No -> 7 };\n    let c = match v.pop() { Yes(n) -> n, No -> 0 };\n"
     "    let _ = Process.println(Str.fromInt(a * 100 + b * 10 + c));"), ["474"])
+
+
+# ---- method used as a function VALUE x what its body does with `this` / its parameters (former C03-F11)
+def method_value_programs():
+    out = {}
+    bodies = {
+        # kind: (method declaration inside class Acc, use of the value `h`, expected line)
+        "plain": ("method plus(x: int): int = x + this.base", "Acc.init(7).plus", "Str.fromInt(h(1))", "8"),
+        "closure capturing this": ("method adder(): (int) -> int = (x) -> x + this.base", "Acc.init(7).adder", "Str.fromInt(h()(1))", "8"),
+        "closure capturing a parameter": ("method scaled(k: int): (int) -> int = (x) -> x * k", "Acc.init(7).scaled", "Str.fromInt(h(3)(5))", "15"),
+        "closure capturing this and a parameter": ("method both(k: int): (int) -> int = (x) -> x * k + this.base", "Acc.init(7).both", "Str.fromInt(h(3)(5))", "22"),
+        "nested lambda": ("method deep(): (int) -> (int) -> int = (a) -> (b) -> a + b + this.base", "Acc.init(7).deep", "Str.fromInt(h()(1)(2))", "10"),
+        "returns this": ("method me(): Acc = this", "Acc.init(7).me", "Str.fromInt(h().base)", "7"),
+        "stores this in a struct": ("method wrap(): Hold = Hold.init(this, 1)", "Acc.init(7).wrap", "Str.fromInt(h().a.base + h().n)", "8"),
+        "passes this to a function": ("method viaStatic(): int = Acc.get(this)", "Acc.init(7).viaStatic", "Str.fromInt(h())", "7"),
+        "this in both branches of an if": ("method pick(o: Acc, b: bool): Acc = if b { this } else { o }", "Acc.init(7).pick", "Str.fromInt(h(Acc.init(9), true).base + h(Acc.init(9), false).base)", "16"),
+        "this as a loop value": ("method walk(n: int, cur: Acc): Acc = if n == 0 { cur } else { this.walk(n - 1, this) }", "Acc.init(7).walk", "Str.fromInt(h(k, Acc.init(1)).base)", "7"),
+        "this passed to a closure call": ("method app(f: (Acc) -> int): int = f(this)", "Acc.init(7).app", "Str.fromInt(h((a) -> a.base * 2))", "14"),
+        "this in a variant payload": ("method some(): OptA = OptA.Yes(this)", "Acc.init(7).some", "Str.fromInt(match h() { Yes(a) -> a.base, No -> 0 })", "7"),
+    }
+    for kind, (decl, ref, show, exp) in bodies.items():
+        for style in ("let", "argument", "if"):
+            if style == "let":
+                body = f"    let h = {ref};\n    let _ = Process.println({show});"
+            elif style == "argument":
+                body = f"    let h = Main.id({ref});\n    let _ = Process.println({show});"
+            else:
+                body = f"    let h = if k == 3 {{ {ref} }} else {{ {ref} }};\n    let _ = Process.println({show});"
+            src = ("class Acc(val base: int) {\n  function get(a: Acc): int = a.base\n  " + decl + "\n}\n"
+                   "class Hold(val a: Acc, val n: int) {}\nclass OptA(No, Yes(Acc)) {}\n"
+                   "class Main {\n  function <T> id(x: T): T = x\n  function main(): unit = {\n    let k = \"3\".toInt();\n" + body + "\n  }\n}\n")
+            out[f"method as a value ({style}), body: {kind}"] = (src, [exp])
+    # the same for a method of a generic class and of an enum class (erased receiver)
+    out["method of a generic class as a value, closure capturing this"] = (
+        "class Box<T>(val v: T) {\n  method getter(): () -> T = () -> this.v\n  method me(): Box<T> = this\n}\n"
+        "class Main {\n  function main(): unit = {\n    let g = Box.init(41).getter;\n    let m = Box.init(\"s\").me;\n"
+        "    let _ = Process.println(Str.fromInt(g()()) :: m().v);\n  }\n}\n", ["41s"])
+    out["method of an enum class as a value, body uses this"] = (
+        "class En(A, B(int)) {\n  method code(): int = match this { A -> 1, B(n) -> n }\n  method me(): En = this\n  method later(): () -> int = () -> this.code()\n}\n"
+        "class Main {\n  function main(): unit = {\n    let c = En.B(5).code;\n    let m = En.A().me;\n    let l = En.B(6).later;\n"
+        "    let _ = Process.println(Str.fromInt(c() * 100 + m().code() * 10 + l()()));\n  }\n}\n", ["516"])
+    return out
+
+
+ACCEPT.update(method_value_programs())
